@@ -5,6 +5,7 @@ package c20
 import (
 	"bytes"
 	"encoding/json"
+	"errors"
 	"flag"
 	"fmt"
 	"io"
@@ -664,9 +665,72 @@ func do(al zap.AtomicLevel, srv *httptest.Server, q req) (int, []byte, bool) {
 	return rec.Code, rec.Body.Bytes(), true
 }
 
+// retryWriter is a response writer on a connection that breaks: the first time the handler writes its
+// answer, the client (which has given up waiting) repeats the same PUT on a healthy connection and
+// gets its acknowledgement; then the first write fails.
+type retryWriter struct {
+	hdr         http.Header
+	al          zap.AtomicLevel
+	ct, body    string
+	fired       bool
+	retryStatus int
+}
+
+func (w *retryWriter) Header() http.Header { return w.hdr }
+func (w *retryWriter) WriteHeader(int)     {}
+func (w *retryWriter) Write(p []byte) (int, error) {
+	if !w.fired {
+		w.fired = true
+		rq, _ := http.NewRequest("PUT", "http://example.com/", strings.NewReader(w.body))
+		rq.Header.Set("Content-Type", w.ct)
+		rec := httptest.NewRecorder()
+		w.al.ServeHTTP(rec, rq)
+		w.retryStatus = rec.Code
+	}
+	return 0, errors.New("connection reset by peer")
+}
+
+// brokenConnections: every PUT that was acknowledged named level B and nothing named any other level,
+// so B is the level in force afterwards - whatever became of the first connection.
+func brokenConnections(r *ev.Run) {
+	for a := zapcore.DebugLevel; a <= zapcore.FatalLevel; a++ {
+		for b := zapcore.DebugLevel; b <= zapcore.FatalLevel; b++ {
+			for fi, form := range []bool{false, true} {
+				id := fmt.Sprintf("c20/broken-connection/%d/%d/%d", a, b, fi)
+				if !r.Want(id) {
+					continue
+				}
+				al := zap.NewAtomicLevelAt(a)
+				held := al
+				w := &retryWriter{hdr: http.Header{}, al: al, ct: "application/json", body: `{"level":"` + b.String() + `"}`}
+				if form {
+					w.ct, w.body = "application/x-www-form-urlencoded", "level="+b.String()
+				}
+				rq, _ := http.NewRequest("PUT", "http://example.com/", strings.NewReader(w.body))
+				rq.Header.Set("Content-Type", w.ct)
+				pn := ev.Guard(func() { al.ServeHTTP(w, rq) })
+				r.Eval(1)
+				r.Count("puts_over_a_connection_that_breaks", 1)
+				r.Distinct(fmt.Sprintf("broken|%d|%d|%v", a, b, form))
+				switch {
+				case pn != "":
+					r.Violate(ev.Violation{Case: id, Class: "http-panic", Msg: "the handler panicked when its response could not be written: " + pn})
+				case !w.fired:
+					r.Violate(ev.Violation{Case: id, Class: "http-no-response", Msg: "the handler wrote no response for a valid PUT"})
+				case w.retryStatus != 200:
+					r.Violate(ev.Violation{Case: id, Class: "http-valid-put", Msg: fmt.Sprintf("the repeated PUT naming %v was answered %d", b, w.retryStatus)})
+				case held.Level() != b:
+					r.Violate(ev.Violation{Case: id, Class: "http-level-not-in-force", Msg: fmt.Sprintf("level was %v; a PUT naming %v was sent twice (the first connection broke while the answer was written, the repeat was acknowledged with 200); the level in force is now %v", a, b, held.Level())})
+				}
+			}
+		}
+	}
+}
+
 // Run is the C20 monitor.
 func Run(r *ev.Run) {
 	r.Rule = "text forms: all 256 level values x {String, CapitalString, MarshalText, JSON, YAML} through 9 parsing entry points, every case mix of every name, special and random byte strings, with a sentinel target; HTTP: seeded sequences of 1-30 template requests (known intent) and random requests against one AtomicLevel shared with live loggers, invariants checked after every request; distinct = distinct texts / distinct (method, content-type, intent, body) requests"
 	texts(r)
 	httpSeqs(r)
+	brokenConnections(r)
 }
